@@ -288,10 +288,13 @@ def _print_affine_expr_of_ssa_ids(
     expr: AffineExpr,
     operands: Sequence[SSAValue],
     min_prec: int = 0,
+    num_dims: int = 0,
 ) -> None:
     """
     Print an AffineExpr printing `%<name>` in place of each dimension or symbol,
-    instead of `d<i>`/`s<i>`.
+    instead of `d<i>`/`s<i>`. The operands are the values bound to the dimensions
+    followed by the values bound to the symbols, `num_dims` is the number of
+    dimensions of the enclosing map.
 
     Parenthesizes the minimum needed to preserve meaning: a subexpression is wrapped
     if its own precedence is lower than `min_prec`, or, for the right operand of
@@ -305,7 +308,7 @@ def _print_affine_expr_of_ssa_ids(
         case AffineDimExpr(position=position):
             printer.print_ssa_value(operands[position])
         case AffineSymExpr(position=position):
-            printer.print_ssa_value(operands[position])
+            printer.print_ssa_value(operands[num_dims + position])
         case AffineBinaryOpExpr(kind=kind, lhs=lhs, rhs=rhs):
             prec = _AFFINE_EXPR_PRECEDENCE[kind]
             needs_parens = prec < min_prec
@@ -313,10 +316,12 @@ def _print_affine_expr_of_ssa_ids(
             ctx = printer.in_parens() if needs_parens else nullcontext()
 
             with ctx:
-                _print_affine_expr_of_ssa_ids(printer, lhs, operands, prec)
+                _print_affine_expr_of_ssa_ids(printer, lhs, operands, prec, num_dims)
                 printer.print_string(f" {kind.get_token()} ")
                 right_min = prec if kind == AffineBinaryOpKind.Add else prec + 1
-                _print_affine_expr_of_ssa_ids(printer, rhs, operands, right_min)
+                _print_affine_expr_of_ssa_ids(
+                    printer, rhs, operands, right_min, num_dims
+                )
         case _:
             raise ValueError(f"Unexpected affine expr {expr}")
 
@@ -330,7 +335,9 @@ def _print_affine_map_of_ssa_ids(
     with printer.in_square_brackets():
         printer.print_list(
             map.results,
-            lambda res: _print_affine_expr_of_ssa_ids(printer, res, operands),
+            lambda res: _print_affine_expr_of_ssa_ids(
+                printer, res, operands, num_dims=map.num_dims
+            ),
         )
 
 
